@@ -534,7 +534,8 @@ class FindScpTask(Task):
 QR = f"{SC}:QueryRetrieveServiceClass"
 GET = f"{QR}._get_scp"
 MOVE = f"{QR}._move_scp"
-DS_KINDS = ["None", "dataset-with-SOPInstanceUID", "dataset-without-SOPInstanceUID", "empty-dataset", "not-a-dataset"]
+DS_KINDS = ["None", "dataset-with-SOPInstanceUID", "dataset-without-SOPInstanceUID", "empty-dataset", "not-a-dataset",
+            "dataset-with-an-empty-FailedSOPInstanceUIDList-and-an-ErrorComment", "dataset-with-a-FailedSOPInstanceUIDList"]
 PRIOR = Env("instances-recorded-by-earlier-iterations")
 
 
@@ -708,7 +709,8 @@ class GetMoveScpTask(Task):
                 dk = I.choose(len(DS_KINDS), "dataset kind")
                 g["ds_kind"] = dk
                 ds = [None, DatasetV([("SOPInstanceUID", "1.2.3"), ("PatientName", "x")]), DatasetV([("PatientName", "x")]), DatasetV([]),
-                      "not a dataset"][dk]
+                      "not a dataset", DatasetV([("FailedSOPInstanceUIDList", []), ("ErrorComment", "archive offline")]),
+                      DatasetV([("FailedSOPInstanceUIDList", ["9.9.9"])])][dk]
                 g["handler_dataset"] = ds
                 return ((status, ds), None)
             return StreamV("_wrap_handler", next_elem)
@@ -826,6 +828,17 @@ class GetMoveScpTask(Task):
                     own = isinstance(src, DatasetV) and any(k == "FailedSOPInstanceUIDList" and v is fi for k, v in src.elems)
                     handlers = src is g.get("handler_dataset") and isinstance(src, DatasetV) and src.sym_contains(I, "FailedSOPInstanceUIDList")
                     I.ob(f"C22/{self.fn}/final-identifier-lists-the-recorded-failed-instances-(or-is-the-handlers-own-list){T}", own or handlers)
+                    hd = g.get("handler_dataset")
+                    if isinstance(hd, DatasetV) and hd.sym_contains(I, "FailedSOPInstanceUIDList") and g.get("phase") == "iteration" \
+                            and g.get("status_kind") in (0, 1, 4) and g.get("result_examined"):
+                        # C21: for a Cancel / Failure / Warning result the handler's dataset IS the response identifier (documented:
+                        # "dataset is a Dataset with a FailedSOPInstanceUIDList element"): it reaches the requestor as supplied
+                        hs_ = g["handler_status"].e
+                        cfw = z3.Or(*[ST.category_is_z3(hs_, c_) for c_ in (ST.CANCEL, ST.FAILURE, ST.WARNING)])
+                        listed = g["table"].listed(hs_)           # a status the service defines (others: validate_status decides)
+                        I.ob(f"C21/{self.fn}/a-final-dataset-supplied-by-the-handler-is-the-one-that-is-encoded-and-sent",
+                             z3.Implies(z3.And(cfw, listed), z3.BoolVal(src is hd)),
+                             detail=f"dataset kind {DS_KINDS[g.get('ds_kind')]}: encoded {src!r}")
 
     def body(self, I):
         g = I.ghost
@@ -834,6 +847,16 @@ class GetMoveScpTask(Task):
         ae.attrs["ae_title"] = "SCP"
         me.attrs["assoc"].attrs["ae"] = ae
         me.attrs["ae"] = ae
+        g["table"] = me.attrs["statuses"]
+        # whether the handler's result was examined at all on this path (results yielded after the last announced
+        # sub-operation are documented to be ignored): validate_status is called exactly for examined results
+        orig_call = I.call_func
+
+        def spy(fi, args, kwargs, closure=None):
+            if fi.qualname == VALID:
+                I.ghost["result_examined"] = True
+            return orig_call(fi, args, kwargs, closure)
+        I.call_func = spy
         req, mid = mk_request(I, "C_GET" if self.which == "get" else "C_MOVE", _move_destination="DEST")
         cx, cid = mk_context(I)
         g["mid"], g["cid"] = mid, cid
